@@ -20,8 +20,10 @@ var c02Corpus = []string{
 	"POST /k HTTP/1.1\r\nHost: h\r\nX-Fold: a\r\n\tb\r\n c\r\nX-After: z\r\nTransfer-Encoding: chunked\r\n\r\n1\r\nq\r\n0\r\n\r\nGET /l HTTP/1.1\r\nHost: h\r\n\r\n",
 	"GET /m HTTP/1.1\nHost: h\n\nGET /n HTTP/1.1\r\nHost: h\r\n\r\n",
 	"POST /o HTTP/1.1\r\nHost: h\r\nContent-Type: multipart/form-data; boundary=B\r\nContent-Length: 62\r\n\r\n--B\r\nContent-Disposition: form-data; name=\"a\"\r\n\r\nvvvvv\r\n--B--\r\nGET /p HTTP/1.1\r\nHost: h\r\n\r\n",
+	// a multipart form that ends before its declared length (epilogue behind the closing boundary)
+	"POST /o2 HTTP/1.1\r\nHost: h\r\nContent-Type: multipart/form-data; boundary=B\r\nContent-Length: 78\r\n\r\n--B\r\nContent-Disposition: form-data; name=\"a\"\r\n\r\nvvvvv\r\n--B--\r\nepilogue-bytes\r\nGET /p2 HTTP/1.1\r\nHost: h\r\n\r\n",
 	"POST /q HTTP/1.1\r\nHost: h\r\nContent-Length: 5\r\n\r\nhel", // truncated
-	"GET /r HTTP/1.1\r\nHost h\r\n\r\n",                              // malformed
+	"GET /r HTTP/1.1\r\nHost h\r\n\r\n",                           // malformed
 	"POST /s HTTP/1.1\r\nHost: h\r\nTransfer-Encoding: chunked\r\n\r\nzz\r\n",
 	"\r\n\r\nGET /t HTTP/1.1\r\nHost: h\r\n\r\n",
 	"GET /u HTTP/1.1\r\nHost: h\r\nCookie: a=b; c=d\r\nCookie: e=f\r\nConnection: close\r\n\r\nGET /v HTTP/1.1\r\nHost: h\r\n\r\n",
